@@ -9,10 +9,11 @@
           (msg_close_channel_end_reply is exempt: its assertion depends on the `claimed` flag of
           the handle, which the wire does not show — see Proto/ClientView.v patch_close);
      real `pan <other fn>` / `err`: not a matter of the acceptance automaton (SKIP).
-   A client that has decided to shut down ignores what it still receives (drain_transport); the
-   tap sees its Shutdown only when it is flushed, so a message the automaton refuses although the
-   client returned Ok is a disagreement only if the client demonstrably was still active, i.e.
-   sent a request after it (otherwise SKIP).
+   A client that has decided to shut down ignores what it still receives (drain_transport), and
+   the tap sees what the client sends only when it is flushed.  In a DISTURBED session (argv 4 =
+   "disturbed") a message the automaton refuses although the client went on is therefore a
+   disagreement only if the client never sent Shutdown in that session (otherwise SKIP: it may
+   have been draining when the message arrived).  In an undisturbed session every refusal of the automaton is a disagreement.
    Output, one line per session: `AGREE|DISAGREE|SKIP <case> <client> real=<..> model=<..> recv=<n>`. *)
 open Clientview_model
 
@@ -149,6 +150,7 @@ let () =
   let ic = open_in Sys.argv.(1) in
   let oc = open_out Sys.argv.(2) in
   let version = n_of_int (if Array.length Sys.argv > 3 then int_of_string Sys.argv.(3) else 20) in
+  let disturbed = Array.length Sys.argv > 4 && Sys.argv.(4) = "disturbed" in
   (try
      while true do
        let line = input_line ic in
@@ -165,18 +167,18 @@ let () =
                 let stop_at = ref (-1) in
                 (* the first message in each direction is the handshake (before Client::run) *)
                 let hs_sent = ref false and hs_recv = ref false in
-                let last_active_send = ref (-1) in
+                let last_shutdown = ref (-1) in
                 (try
                    List.iteri
                      (fun idx item ->
                        match words item with
                        | dir :: toks ->
                            (match parse_msg toks with
-                            | None -> ()
+                            | None -> if dir = "S" && toks = ["Shutdown"] then last_shutdown := idx
                             | Some OtherToBroker when dir = "S" && not !hs_sent -> hs_sent := true
                             | Some OtherToBroker when dir = "R" && not !hs_recv -> hs_recv := true
                             | Some m ->
-                                if dir = "R" then (incr nrecv; last_recv := idx) else last_active_send := idx;
+                                if dir = "R" then (incr nrecv; last_recv := idx);
                                 if !stop_at < 0 then begin
                                   let w = if dir = "S" then WSent m else WRecv m in
                                   let v', code = replay_step !v w in
@@ -196,7 +198,7 @@ let () =
                 let res =
                   if !stop_at = -2 then "DISAGREE"
                   else if real = "ok" || real = "none" then
-                    (if !stop_at < 0 then "AGREE" else if !stop_at > !last_active_send then "SKIP" else "DISAGREE")
+                    (if !stop_at < 0 then "AGREE" else if disturbed && !last_shutdown >= 0 then "SKIP" else "DISAGREE")
                   else if real = "rej" then (if starts "rej" !model && at_last then "AGREE" else "DISAGREE")
                   else if starts "pan msg_close_channel_end_reply" real then
                     (if !stop_at < 0 || (starts "pan" !model && at_last) then "SKIP" else "DISAGREE")
